@@ -175,7 +175,7 @@ func genC12(rt *rapid.T) C12Case {
 		c.FillDefault = rapid.IntRange(0, 2).Draw(rt, "fill") == 0
 	}
 	nkeys := rapid.IntRange(1, 6).Draw(rt, "nkeys")
-	kinds := []string{"put", "put", "put", "get", "get", "get", "delete", "clear", "sweep", "size", "stats", "keys", "advance", "advance"}
+	kinds := swarmKinds(rt, []string{"put", "put", "put", "get", "get", "get", "delete", "clear", "sweep", "size", "stats", "keys", "advance", "advance"}, "put")
 	opGen := rapid.Custom(func(rt *rapid.T) LRUOp {
 		k := rapid.SampledFrom(kinds).Draw(rt, "kind")
 		op := LRUOp{Kind: k}
